@@ -412,6 +412,13 @@ def perform(root: str, op: str, hooks) -> None:
         tx = t.new_transaction().begin()
         tx.delete_files([files[0]])
         tx.commit()
+    elif op == "replace":       # delete_files + append in ONE transaction: one snapshot, one pointer flip
+        files = [df.file_path for df in t._get_all_data_files()]
+        hooks.armed = True
+        tx = t.new_transaction().begin()
+        tx.delete_files([files[0]])
+        tx.append_data(rows(53, 2))
+        tx.commit()
     elif op == "expire":
         cur = t.current_snapshot()
         hooks.armed = True
